@@ -23,10 +23,17 @@ def _mods():
     return locals()
 
 
-def make_object(spec, uuid):
+def make_object(spec, uuid, dim="3d"):
     M = _mods()
     lab = {"car": M["AutowareLabel"].CAR, "bicycle": M["AutowareLabel"].BICYCLE, "pedestrian": M["AutowareLabel"].PEDESTRIAN,
            "unknown": M["AutowareLabel"].UNKNOWN, "false_positive": M["AutowareLabel"].FP}[spec["label"]]
+    if dim == "2d":
+        # the same spec as a 2D object with an integer ROI (IOU3D / plane distance do not exist for it: get_matching(mode) is None)
+        from perception_eval.common.object2d import DynamicObject2D
+
+        roi = (int(8 * (spec["pos"][0] + 64)), int(8 * (spec["pos"][1] + 64)), int(8 * spec["size"][0]) + 1, int(8 * spec["size"][1]) + 1)
+        return DynamicObject2D(unix_time=100, frame_id=M["FrameID"].CAM_FRONT, semantic_score=spec.get("conf", 1.0),
+                               semantic_label=M["Label"](lab, spec["label"], []), roi=roi, uuid=uuid)
     return M["DynamicObject"](
         unix_time=100, frame_id=M["FrameID"].BASE_LINK,
         position=tuple(spec["pos"]), orientation=M["Quaternion"](axis=(0.0, 0.0, 1.0), radians=spec["yaw"]),
@@ -41,8 +48,8 @@ def make_results(scene):
     pol = M["MatchingLabelPolicy"][scene["policy"]]
     out = []
     for i, r in enumerate(scene["results"]):
-        est = make_object(r["est"], f"e{i}")
-        gt = make_object(r["gt"], f"g{i}") if r["gt"] is not None else None
+        est = make_object(r["est"], f"e{i}", scene.get("dim", "3d"))
+        gt = make_object(r["gt"], f"g{i}", scene.get("dim", "3d")) if r["gt"] is not None else None
         out.append(M["DynamicObjectWithPerceptionResult"](est, gt, pol))
     return out
 
